@@ -68,3 +68,13 @@ Example select_charge_matters :
   graph_to_mol (mol_to_graph_sel ex_ion false false (AS true false true true true) true)
   = graph_to_mol (mol_to_graph ex_ion false false).
 Proof. split; [vm_compute; discriminate|reflexivity]. Qed.
+
+(** ** graph_to_smi with a non-empty preserve list: hydrogens without a heavy neighbour are dropped (known finding
+    graph_to_smi:preserve_atom_maps:bare-hydrogen-dropped): H2 becomes the empty molecule *)
+Definition ex_h2m : gr :=
+  LG [(1%N, NA (Some s_H) (Some false) (Some 0) (Some 0) (Some 0) None); (2%N, NA (Some s_H) (Some false) (Some 0) (Some 0) (Some 0) None)]
+     [(1%N, 2%N, EA (Some (OS 2)) None)].
+Theorem preserve_bare_h_refuted :
+  exists (g : gr) (pres : list Z), gwfb g = true /\ total_h g = 2 /\
+    graph_to_smi_mol g [] <> Some ([], []) /\ graph_to_smi_mol g pres = Some ([], []).
+Proof. exists ex_h2m, [3]. vm_compute. repeat split; discriminate. Qed.
